@@ -1,5 +1,5 @@
 ENGINES=[
- dict(name="envx",path="engine/vf.h",serves_properties=["C19","C15"],kind_free_text="bounded-exhaustive enumeration / deviation-bounded choice explorer over the real code, fork-sharded with crash isolation"),
+ dict(name="envx",path="engine/vf.h",serves_properties=["C19","C15","C14","C16"],kind_free_text="bounded-exhaustive enumeration / deviation-bounded choice explorer over the real code, fork-sharded with crash isolation"),
 ]
 NOT_YET={}
 chk("C19","envx","exploration",
@@ -10,3 +10,11 @@ chk("C15","envx","exploration",
  "All byte strings of length 0..2 on every output path of escape/urlencode/base64url (string, streambuf, ostream, template filters through their 128-byte filter buffer, text/textarea widgets), base64 blocks of length 3 (16^3 grid quick, all 2^24 thorough), lengths 0..1024 for the size formulas with canary and exact-size heap buffers, every sink capacity 0..len(output) as an environment answer, and the decoders on all short strings over adversarial alphabets; each compared with reference codecs written in the harness. Complete within those bounds.",
  "Trusted: reference un-escape/percent/base64url codecs in harness/C15; ASan for out-of-buffer writes. Failure *reporting* on a short sink is not demanded (the statement does not), only that what was delivered is a prefix of the correct output.",
  "bounded-exhaustive input and sink-capacity enumeration vs reference codecs")
+chk("C14","envx","exploration",
+ "All 2^32 four-byte windows and all strings of length 1..3 go through both UTF-8 decoders (cppcms::utf8::next plain and HTML-safe, booster utf_traits<char>::decode) and are compared on verdict, code point and length with a decoder written from the RFC 3629 grammar: as the decoders read at most 4 bytes this part is complete, not bounded. All bytes and all byte pairs for the 36 registered single-byte code-page names; valid / valid_utf8 / validate_or_filter on every concatenation of up to 4 pieces of a 38-piece catalogue of well- and ill-formed units.",
+ "Trusted: the grammar-derived reference decoder in harness/C14. C0/C1 read as Unicode Cc incl. DEL. Exact per-code-page tables of unassigned bytes are not demanded (the statement does not). The form-widget clause is not driven by this check.",
+ "exhaustive input enumeration (2^32 windows) of the real decoders vs a grammar-derived reference")
+chk("C16","envx","exploration",
+ "Digest and HMAC objects are explored as state machines: every operation sequence up to depth 4 (thorough 5) over appends around the block boundaries, readout and clone, every message length 0..2B+9 with every 2-chunking and 3-chunkings to B+9, HMAC key-length classes with object reuse over 18 messages, AES-CBC 1..4 blocks chained and single-call, and hex key parsing over all short strings; every state compared with libcrypto one-shot functions anchored by embedded known-answer vectors.",
+ "Trusted base: OpenSSL EVP one-shot digest/HMAC/CBC plus embedded FIPS 180-4 / RFC 2202 / RFC 4231 vectors. SHA-2 and AES in cppcms are themselves thin wrappers over the same library, so for them the check covers the wrapper logic (init/update/final/re-init/clone/IV chaining).",
+ "bounded-exhaustive operation-sequence and chunking enumeration vs one-shot reference functions")
